@@ -149,6 +149,16 @@ def check(tree, rep, tier='quick', seed=0):
     n_g = n_r = n_l = 0
     for y in an.cat.years:
         ga = GateAnalysis(an, y)
+        # lines that can be evaluated at all: the required lines of every form and whatever they (may) read, transitively
+        reach = set()
+        todo = [(fr.name, rec.attrs.get('_name')) for fr in an.cat.forms(y) if fr.rec is not None for rec in fr.required]
+        while todo:
+            k = todo.pop()
+            if k in reach:
+                continue
+            reach.add(k)
+            todo.extend(k2 for k2 in ga.line_reads.get(k, ()) if k2 not in reach)
+        never = {e['atom'] for e in data.get('never_consulted', [])}
         for g in frozen.get(y, []):
             atom, val = g['atom'], g['affirmative']
             key = f'{y}/{atom}={val}'
@@ -179,6 +189,11 @@ def check(tree, rep, tier='quick', seed=0):
                    f'{atom} = {val} used to make {g.get("readers", "a reader")} refuse (not-implemented on every path after reading it); no reader refuses by itself any more - '
                    f'readers now: {[(".".join(k), c) for k, (c, _) in cl.items()]}', '',
                    sample={'gate': atom, 'affirmative': val, 'refusing_readers': ['.'.join(k) for k in s1]})
+            if s1 and atom not in never:
+                live = [k for k in s1 if k in reach]
+                rep.ob('R9.6', key + '/a-refusing-reader-is-evaluated', bool(live),
+                       f'{atom} = {val}: the lines that refuse ({[".".join(k) for k in s1][:3]}) are optional lines that no required line reads any more (directly or through other lines), '
+                       'so they are never evaluated: the declaration is still asked for where another line reads it, or silently ignored, and the return solves', '')
             for k, (c, detail) in cl.items():
                 if c == 'unread':
                     continue
